@@ -70,7 +70,11 @@ TRUSTED = ["IEEE-754 binary64 division of the Go build = Coq PrimFloat (drop rat
            "probability > 1 - 1e-30)"]
 ASSUMPTIONS = ["coin_lt_sound: for a double u, u < fl(r) implies u < r (round-to-nearest); named hypothesis of the theorems, "
                "checked on every observed rejection by spec_ok (exact integer comparison)",
-               "calls are atomic in time (clock advances only between events)"]
+               "calls are atomic in time (clock advances only between events)",
+               "sides 5 / 6 of the mixed streams run against real-time budgets (client timeout 25-40 ms, server timeout 30 ms): "
+               "whether an instant backend call still overran its budget is read off the observation (let in, DeadlineExceeded "
+               "came back although another code was scripted => the call is an overrun, class 6, for model and statement); "
+               "the evidence counts such streams under m:instant-backend-overran-the-real-time-budget"]
 
 I = 250_000_000
 P53 = 1 << 53
@@ -321,7 +325,7 @@ def gen_engine(rng, side):
     else:
         for _ in range(rng.randint(60, 140)):
             calls.append(rng.choice([[0, 200], [0, 500], [4, 0], [1, 0], [0, 502], [2, 0], [10, 0]]) + [0])
-    return {"kind": "m", "side": side, "calls": calls, "timeout": 0 if side == 3 else rng.choice([50, 3000])}
+    return {"kind": "m", "side": side, "calls": calls, "timeout": 0 if side == 3 else rng.choice([1000, 3000])}
 
 
 def mixed_cases(rng, tier):
@@ -346,13 +350,15 @@ def mixed_cases(rng, tier):
         # ... and one aborting every request with the sentinel http.ErrAbortHandler (what ReverseProxy raises), panic(nil), runtime errors
         fixed.append({"kind": "m", "side": side, "timeout": 0 if side == 3 else 3000,
                       "calls": [[0, 200, 0]] * rng.randint(0, 4) + [[8, 0, 0]] * 110})
-        fixed.append({"kind": "m", "side": side, "timeout": 0 if side == 3 else 50,
+        fixed.append({"kind": "m", "side": side, "timeout": 0 if side == 3 else 1000,
                       "calls": [[rng.choice([7, 8, 9]), 0, 0] for _ in range(110)]})
         fixed.append(gen_engine(rng, side))
     # the composed client chain of rpc/internal/client.go over a real transport: a backend overrunning the client timeout
-    fixed.append({"kind": "m", "side": 5, "timeout": 5,
+    # (the client timeout is REAL time: large enough that an instant backend normally answers within it; a call that
+    # overruns it anyway is read off the observation, see overran())
+    fixed.append({"kind": "m", "side": 5, "timeout": 25,
                   "calls": [[0, 0, 0]] * rng.randint(0, 3) + [[6, 0, 0]] * 75 + [[0, 0, 0]] * 5})
-    fixed.append({"kind": "m", "side": 5, "timeout": rng.choice([5, 8]),
+    fixed.append({"kind": "m", "side": 5, "timeout": rng.choice([25, 40]),
                   "calls": [rng.choice([[0, 0, 0], [0, 5, 0], [0, 16, 0], [6, 0, 0], [0, 14, 0]]) for _ in range(rng.randint(40, 80))]})
     # a STARTED rpc/internal Server (Start's chain, timeout interceptor added through AddUnaryInterceptors): a hung handler
     fixed.append({"kind": "m", "side": 6, "calls": [[0, 0, 0]] * rng.randint(0, 3) + [[6, 0, 0]] * 75 + [[0, 0, 0]] * 5})
@@ -443,12 +449,27 @@ KIND = ["KDo", "KDoWithAcceptable", "KDoWithFallback", "KDoWithFallbackAcceptabl
 OUT = ["OK", "AcceptableErr", "UnacceptableErr", "Panics", "PanicsNil", "InnerUnavailable"]
 
 
+def overran(case, obs):
+    """sides 5 / 6 run against REAL-time budgets (the client's timeout interceptor / the server's UnaryTimeoutInterceptor),
+    the one input of a stream the driver cannot script: whether a call whose backend answers at once (class 0) still
+    overran the budget is the scheduler's choice, so it is read off the observation -- a call that was let in and came
+    back DeadlineExceeded although the backend was told to answer another code IS an overrun (class 6) for the model and
+    the statement alike (the caller has no deadline of its own, so only the timeout interceptor answers that code).
+    Returns the indices of such calls."""
+    if case["kind"] != "m" or case["side"] not in (5, 6):
+        return []
+    rows = obs.get("rows", [])
+    return [i for i, (c, r) in enumerate(zip(case["calls"], rows)) if c[0] == 0 and c[1] != 4 and r[0] == 0 and r[1] == 4]
+
+
 def encode(case, obs):
     if case["kind"] == "c":
         return "CCase %s %s %s" % (cZ(case["g"]), cZ(case["fails"]), cZ(obs.get("let_in", -1)))
     if case["kind"] == "m":
         # class 10 (client disconnects mid-flight) is model class 10 under a timeout handler (side 4) and 11 without one (side 3)
-        calls = [cpair(cnat(11 if (c[0] == 10 and case["side"] == 3) else c[0]), cZ(c[1]), cnat(c[2])) for c in case["calls"]]
+        late = set(overran(case, obs))
+        calls = [cpair(cnat(6 if i in late else 11 if (c[0] == 10 and case["side"] == 3) else c[0]), cZ(c[1]), cnat(c[2]))
+                 for i, c in enumerate(case["calls"])]
         if case["side"] in (5, 6):
             rows = obs.get("rows", [])
             rej, st = [r[0] == 1 for r in rows], [r[1] for r in rows]
@@ -506,6 +527,8 @@ def bucket(case, obs):
         rej = obs.get("rej") or [(r[0] if case["side"] in (5, 6) else 1 - r[1]) for r in obs.get("rows", [])]
         out = ["kind:m", "m:side=%d" % case["side"], "m:cutoff=%s" % any(rej), "m:names=%d" % len({c[2] for c in case["calls"]})]
         out += sorted({"m:class=%d" % c[0] for c in case["calls"]})
+        if overran(case, obs):
+            out.append("m:instant-backend-overran-the-real-time-budget")
         return out
     if case["kind"] == "r":
         rows = obs.get("rows", [])
